@@ -917,6 +917,93 @@ class NativeObj:
     rt = 'NativeObj'
 
 
+def int_arith(ex, base, x, y, signed, width, with_overflow=False):
+    """integer / bool binary operation of MIR on concrete or symbolic operands (shared by BinaryOp rvalues and the operator-trait natives)"""
+    op = base
+    lo, hi = ((-(1 << (width - 1)), (1 << (width - 1)) - 1) if signed else (0, (1 << width) - 1)) if width else (0, 0)
+    if not is_sym(x) and not is_sym(y):
+        if isinstance(x, bool) or isinstance(y, bool):
+            if base == 'BitAnd':
+                return bool(x) and bool(y)
+            if base == 'BitOr':
+                return bool(x) or bool(y)
+            if base == 'BitXor':
+                return bool(x) != bool(y)
+        if base == 'Add':
+            r = x + y
+        elif base == 'Sub':
+            r = x - y
+        elif base == 'Mul':
+            r = x * y
+        elif base == 'BitAnd':
+            r = x & y
+        elif base == 'BitOr':
+            r = x | y
+        elif base == 'BitXor':
+            r = x ^ y
+        elif base == 'Shl':
+            r = x << (y % width)
+        elif base == 'Shr':
+            r = x >> (y % width)
+        elif base == 'Div':
+            if y == 0:
+                raise Panic('attempt to divide by zero')
+            r = abs(x) // abs(y) * (1 if (x >= 0) == (y >= 0) else -1)
+        else:
+            if y == 0:
+                raise Panic('attempt to calculate the remainder with a divisor of zero')
+            r = abs(x) % abs(y) * (1 if x >= 0 else -1)
+        if with_overflow:
+            return Tup([mask(r, signed, width), not (lo <= r <= hi)])
+        return mask(r, signed, width) if width else r
+    x, y = _coerce(x, y, width)
+    if z3.is_bool(x):
+        if base == 'BitAnd':
+            return z3.And(x, y)
+        if base == 'BitOr':
+            return z3.Or(x, y)
+        if base == 'BitXor':
+            return z3.Xor(x, y)
+        raise Unsupported(f'{op} on symbolic bool')
+    if base == 'Add':
+        r = x + y
+        if with_overflow:
+            ov = z3.Not(z3.BVAddNoOverflow(x, y, signed)) if not signed else z3.Or(z3.Not(z3.BVAddNoOverflow(x, y, True)), z3.Not(z3.BVAddNoUnderflow(x, y)))
+            return Tup([r, ov])
+        return r
+    if base == 'Sub':
+        r = x - y
+        if with_overflow:
+            ov = z3.ULT(x, y) if not signed else z3.Or(z3.Not(z3.BVSubNoOverflow(x, y)), z3.Not(z3.BVSubNoUnderflow(x, y, True)))
+            return Tup([r, ov])
+        return r
+    if base == 'Mul':
+        r = x * y
+        if with_overflow:
+            ov = z3.Not(z3.BVMulNoOverflow(x, y, signed)) if not signed else z3.Or(z3.Not(z3.BVMulNoOverflow(x, y, True)), z3.Not(z3.BVMulNoUnderflow(x, y)))
+            return Tup([r, ov])
+        return r
+    if base == 'BitAnd':
+        return x & y
+    if base == 'BitOr':
+        return x | y
+    if base == 'BitXor':
+        return x ^ y
+    if base == 'Shl':
+        return x << y
+    if base == 'Shr':
+        return (x >> y) if signed else z3.LShR(x, y)
+    if base == 'Div':
+        if ex.truth(y == 0):
+            raise Panic('attempt to divide by zero')
+        return (x / y) if signed else z3.UDiv(x, y)
+    if base == 'Rem':
+        if ex.truth(y == 0):
+            raise Panic('attempt to calculate the remainder with a divisor of zero')
+        return z3.SRem(x, y) if signed else z3.URem(x, y)
+    raise Unsupported(op)
+
+
 # ----------------------------------------------------------------------------- statement compiler
 class Compiler:
     def __init__(s, ex, fn):
@@ -1557,88 +1644,7 @@ class Compiler:
             lo, hi = ((-(1 << (width - 1)), (1 << (width - 1)) - 1) if signed else (0, (1 << width) - 1)) if width else (0, 0)
 
             def _arith(fr):
-                x, y = oa(fr), ob(fr)
-                if not is_sym(x) and not is_sym(y):
-                    if isinstance(x, bool) or isinstance(y, bool):
-                        if base == 'BitAnd':
-                            return bool(x) and bool(y)
-                        if base == 'BitOr':
-                            return bool(x) or bool(y)
-                        if base == 'BitXor':
-                            return bool(x) != bool(y)
-                    if base == 'Add':
-                        r = x + y
-                    elif base == 'Sub':
-                        r = x - y
-                    elif base == 'Mul':
-                        r = x * y
-                    elif base == 'BitAnd':
-                        r = x & y
-                    elif base == 'BitOr':
-                        r = x | y
-                    elif base == 'BitXor':
-                        r = x ^ y
-                    elif base == 'Shl':
-                        r = x << (y % width)
-                    elif base == 'Shr':
-                        r = x >> (y % width)
-                    elif base == 'Div':
-                        if y == 0:
-                            raise Panic('attempt to divide by zero')
-                        r = abs(x) // abs(y) * (1 if (x >= 0) == (y >= 0) else -1)
-                    else:
-                        if y == 0:
-                            raise Panic('attempt to calculate the remainder with a divisor of zero')
-                        r = abs(x) % abs(y) * (1 if x >= 0 else -1)
-                    if with_overflow:
-                        return Tup([mask(r, signed, width), not (lo <= r <= hi)])
-                    return mask(r, signed, width) if width else r
-                x, y = _coerce(x, y, width)
-                if z3.is_bool(x):
-                    if base == 'BitAnd':
-                        return z3.And(x, y)
-                    if base == 'BitOr':
-                        return z3.Or(x, y)
-                    if base == 'BitXor':
-                        return z3.Xor(x, y)
-                    raise Unsupported(f'{op} on symbolic bool')
-                if base == 'Add':
-                    r = x + y
-                    if with_overflow:
-                        ov = z3.Not(z3.BVAddNoOverflow(x, y, signed)) if not signed else z3.Or(z3.Not(z3.BVAddNoOverflow(x, y, True)), z3.Not(z3.BVAddNoUnderflow(x, y)))
-                        return Tup([r, ov])
-                    return r
-                if base == 'Sub':
-                    r = x - y
-                    if with_overflow:
-                        ov = z3.ULT(x, y) if not signed else z3.Or(z3.Not(z3.BVSubNoOverflow(x, y)), z3.Not(z3.BVSubNoUnderflow(x, y, True)))
-                        return Tup([r, ov])
-                    return r
-                if base == 'Mul':
-                    r = x * y
-                    if with_overflow:
-                        ov = z3.Not(z3.BVMulNoOverflow(x, y, signed)) if not signed else z3.Or(z3.Not(z3.BVMulNoOverflow(x, y, True)), z3.Not(z3.BVMulNoUnderflow(x, y)))
-                        return Tup([r, ov])
-                    return r
-                if base == 'BitAnd':
-                    return x & y
-                if base == 'BitOr':
-                    return x | y
-                if base == 'BitXor':
-                    return x ^ y
-                if base == 'Shl':
-                    return x << y
-                if base == 'Shr':
-                    return (x >> y) if signed else z3.LShR(x, y)
-                if base == 'Div':
-                    if ex.truth(y == 0):
-                        raise Panic('attempt to divide by zero')
-                    return (x / y) if signed else z3.UDiv(x, y)
-                if base == 'Rem':
-                    if ex.truth(y == 0):
-                        raise Panic('attempt to calculate the remainder with a divisor of zero')
-                    return z3.SRem(x, y) if signed else z3.URem(x, y)
-                raise Unsupported(op)
+                return int_arith(ex, base, oa(fr), ob(fr), signed, width, with_overflow)
             return _arith
         raise Unsupported(f'binop {op}')
 
